@@ -40,8 +40,11 @@ enum OpKind
   OP_EMIT = 1,     // a=form b=body alternative c=attribute seed d=seed
   OP_SCOPE_BEGIN,  // a=span index b=scope index
   OP_SCOPE_END,    // a=scope index
-  OP_CTX_BEGIN     // a=span index b=scope index: attach a context whose span key holds a
+  OP_CTX_BEGIN,    // a=span index b=scope index: attach a context whose span key holds a
                    // shared_ptr<SpanContext> (not a Span)
+  OP_GETLOGGER     // a=k: this task asks the provider for a logger of its own scope
+                   // "dyn-lib-t<task>-<k>" (concurrently with the other tasks); half of its
+                   // later Emits go through it
 };
 const int kForms = 23, kSpans = 5, kScopes = 6;
 const int64_t kExplicitTs = 1650000000000000000ll;
@@ -63,6 +66,7 @@ struct Snap
   std::string event_name, trace_id, span_id;
   int flags            = 0;
   const void *resource = nullptr, *scope = nullptr;
+  std::string scope_name;
 };
 
 struct MAttr
@@ -87,6 +91,7 @@ struct MRec
   bool emitted  = true;
   bool disabled = false;
   bool second_logger = false;
+  std::string dyn_lib;  // non-empty: emitted through the task's own logger of this scope
   int64_t sys_before = 0, sys_after = 0;  // simulated system clock around the Emit call
 };
 
@@ -99,6 +104,7 @@ struct World
   std::map<int64_t, MRec> model;
   std::vector<val::Scratch::Block> retained;
   nostd::shared_ptr<logs_api::Logger> logger, dlogger, logger2;
+  sdklogs::LoggerProvider *prov = nullptr;
   const void *resource = nullptr, *scope = nullptr, *scope2 = nullptr;
 };
 World *W = nullptr;
@@ -136,6 +142,7 @@ public:
       s.flags      = lr->GetTraceFlags().flags();
       s.resource   = &lr->GetResource();
       s.scope      = &lr->GetInstrumentationScope();
+      s.scope_name = lr->GetInstrumentationScope().GetName();
       W->got[idx_][tag].push_back(s);
     }
     vsim::yield();
@@ -155,6 +162,8 @@ struct TaskState
   std::vector<nostd::unique_ptr<opentelemetry::context::Token>> tokens;  // OP_CTX_BEGIN
   std::vector<int> scope_span;
   std::vector<int> active;
+  nostd::shared_ptr<logs_api::Logger> dyn;  // OP_GETLOGGER
+  std::string dyn_lib;
 };
 
 typedef std::vector<std::pair<nostd::string_view, common::AttributeValue>> PairVec;
@@ -221,7 +230,9 @@ void do_emit(TaskState &ts, const Op &op, int64_t tag)
                               trace_api::TraceFlags(xflags), true);
   // form 22: the same as form 2 through a second (enabled) logger with its own scope
   m.second_logger = op.a == 22;
-  auto &L         = m.second_logger ? *w.logger2 : *w.logger;
+  if (ts.dyn && op.a != 22 && op.a != 13 && (((uint64_t)op.d >> 21) & 1))
+    m.dyn_lib = ts.dyn_lib;
+  auto &L = m.second_logger ? *w.logger2 : (!m.dyn_lib.empty() ? *ts.dyn : *w.logger);
   m.sys_before    = std::chrono::system_clock::now().time_since_epoch().count();
   vsim::yield();
   {
@@ -477,6 +488,13 @@ void run_program(int idx, const TaskProg &t)
       case OP_EMIT:
         do_emit(ts, op, (int64_t)(idx + 1) * 1000 + (int64_t)oi);
         break;
+      case OP_GETLOGGER: {
+        std::string lib = fmt("dyn-lib-t%d-%lld", idx, (long long)op.a);
+        vsim::yield();
+        ts.dyn     = W->prov->GetLogger(fmt("dyn%d", idx), lib, "3.0");
+        ts.dyn_lib = lib;
+        break;
+      }
       case OP_SCOPE_BEGIN:
         if (!ts.scopes[op.b])
         {
@@ -558,6 +576,10 @@ void generate(const std::string &, Rng &wl, Rng &fl, Case &c)
         p.ops.push_back({OP_SCOPE_END, open.back(), 0, 0, 0});
         open.pop_back();
       }
+      else if (r < 0.38)
+      {
+        p.ops.push_back({OP_GETLOGGER, (int64_t)wl.below(3), 0, 0, 0});
+      }
       else
       {
         int64_t form = (int64_t)wl.below(kForms);
@@ -635,6 +657,7 @@ void body(const Case &c)
             .Build());
     sdklogs::LoggerProvider prov(std::move(procs), Resource::Create({{"service.name", "vsim"}}),
                                  std::move(cfg));
+    w.prov     = &prov;
     w.logger   = prov.GetLogger("main", "main-lib", "1.0");
     w.dlogger  = prov.GetLogger("off", "disabled-lib", "1.0");
     w.logger2  = prov.GetLogger("aux", "aux-lib", "2.0");
@@ -698,7 +721,15 @@ void body(const Case &c)
       if (g.resource != w.resource)
         vsim::report("C13.resource", fmt("record %lld: resource is not the provider's",
                                          (long long)m.tag));
-      if (g.scope != (m.second_logger ? w.scope2 : w.scope))
+      if (!m.dyn_lib.empty())
+      {
+        if (g.scope_name != m.dyn_lib)
+          vsim::report("C13.scope",
+                       fmt("record %lld (task %d): emitted through the logger obtained for scope "
+                           "'%s', exported with scope '%s'",
+                           (long long)m.tag, m.task, m.dyn_lib.c_str(), g.scope_name.c_str()));
+      }
+      else if (g.scope != (m.second_logger ? w.scope2 : w.scope))
         vsim::report("C13.scope", fmt("record %lld: scope is not its logger's", (long long)m.tag));
       // the observed timestamp is taken when the record is created, inside the call
       if (g.observed_ts < m.sys_before || g.observed_ts > m.sys_after)
@@ -797,6 +828,9 @@ std::string describe_op(const Case &, int, const Op &op)
       return fmt("scope[%lld] = Scope(span #%lld)", (long long)op.b, (long long)op.a);
     case OP_SCOPE_END:
       return fmt("destroy scope[%lld]", (long long)op.a);
+    case OP_GETLOGGER:
+      return fmt("logger = provider.GetLogger(scope 'dyn-lib-t<task>-%lld'); half of the later Emits use it",
+                 (long long)op.a);
     case OP_CTX_BEGIN:
       return fmt("scope[%lld] = Attach(current.SetValue(span key, shared_ptr<SpanContext> of span #%lld))",
                  (long long)op.b, (long long)op.a);
